@@ -8,3 +8,5 @@ go build -tags verif -o $T/nq_panic ./cmd/nq_panic && go build -tags verif -o $T
 echo "== nq_panic (expect: panic: send on closed channel)"; $T/nq_panic 2>&1 | grep -E "^panic|no panic" | head -2
 echo "== nq_format (expect: HANG)"; $T/nq_format 2>&1 | head -2
 rm -rf $T
+echo "== c17_queue (expect: late: HANG, SUCC-0 displayed=false; two: HANG, SUCC-0 displayed=false)"
+go run ./cmd/c17_queue
